@@ -145,13 +145,15 @@ func (h *c10Recorder) Handle(_ context.Context, header *protocol.RequestHeader, 
 	return nil, nil // no response: handleConnection continues with the next frame
 }
 
-func c10Conn(stream []byte) (handled [][3]int64, panicked bool, msg string) {
+func c10Conn(stream []byte) (handled [][3]int64, consumed int, panicked bool, msg string) {
 	rec := &c10Recorder{}
 	srv := &Server{Handler: rec}
 	conn, peer := net.Pipe()
+	wrote := make(chan int, 1)
 	go func() {
-		_, _ = peer.Write(stream)
+		n, _ := peer.Write(stream) // returns early, with the bytes taken so far, when the server closes
 		_ = peer.Close()
+		wrote <- n
 	}()
 	done := make(chan struct{})
 	go func() {
@@ -172,8 +174,76 @@ func c10Conn(stream []byte) (handled [][3]int64, panicked bool, msg string) {
 		<-done
 		msg = "handleConnection did not return"
 	}
-	_ = peer.Close()
-	return rec.got, panicked, msg
+	_ = conn.Close()
+	consumed = <-wrote
+	return rec.got, consumed, panicked, msg
+}
+
+// c10Listener: the same stream through a real broker.Server listener (loopback TCP). Only used after the
+// stream went through handleConnection under recover() without a panic: a panic in the server's own
+// connection goroutine cannot be recovered here and would take the test process down.
+func c10Listener(stream []byte) (handled [][3]int64, err error) {
+	l, err := net.Listen("tcp", "127.0.0.1:0")
+	if err != nil {
+		return nil, err
+	}
+	addr := l.Addr().String()
+	_ = l.Close()
+	rec := &c10Recorder{}
+	srv := &Server{Addr: addr, Handler: rec}
+	ctx, cancel := context.WithCancel(context.Background())
+	defer cancel()
+	go func() { _ = srv.ListenAndServe(ctx) }()
+	var c net.Conn
+	for i := 0; i < 300; i++ {
+		time.Sleep(5 * time.Millisecond)
+		if c, err = net.DialTimeout("tcp", addr, time.Second); err == nil {
+			break
+		}
+	}
+	if err != nil {
+		return nil, err
+	}
+	defer c.Close()
+	_ = c.SetDeadline(time.Now().Add(15 * time.Second))
+	_, _ = c.Write(stream)
+	if tc, ok := c.(*net.TCPConn); ok {
+		_ = tc.CloseWrite()
+	}
+	_, _ = io.Copy(io.Discard, c) // until the server closes its side: every Handle call has returned
+	cancel()
+	srv.Wait()
+	return rec.got, nil
+}
+
+// c10BadBodies: the (key, version, body) triples of the stream's frames that the kmsg decoder rejects
+// (each frame parsed separately with the real ParseRequestHeader / ParseRequest, under recover).
+func c10BadBodies(stream []byte) (bad [][3]any) {
+	rd := bytes.NewReader(stream)
+	for {
+		f := func() (f *protocol.Frame) {
+			defer func() { _ = recover() }()
+			f, _ = protocol.ReadFrame(rd)
+			return f
+		}()
+		if f == nil {
+			return bad
+		}
+		h := c10ParseHeader(f.Payload)
+		if h.panicked || h.err != nil {
+			return bad
+		}
+		q := c10ParseRequest(f.Payload)
+		if q.panicked {
+			return bad
+		}
+		if q.err != nil {
+			if c10ErrClass(q.err) == 6 {
+				bad = append(bad, [3]any{int64(h.h.APIKey), int64(h.h.APIVersion), append([]byte{}, f.Payload[len(f.Payload)-h.bodyLen:]...)})
+			}
+			return bad
+		}
+	}
 }
 
 // ---------------------------------------------------------------- generators
@@ -480,36 +550,91 @@ func c10GenRoundtrip(r *vRand, key, ver int16) (cs c10Case, ok bool) {
 	return cs, ok
 }
 
+// c10Frame wraps a request payload into a size-prefixed frame.
+func c10FrameOf(payload []byte) []byte {
+	fr := make([]byte, 4, 4+len(payload))
+	binary.BigEndian.PutUint32(fr, uint32(len(payload)))
+	return append(fr, payload...)
+}
+
+// c10BadFrame: a frame that is well-framed but whose request does not parse, or that breaks the framing.
+func c10BadFrame(r *vRand, key, ver int16, good []byte) (fr []byte, class string) {
+	var cid *string
+	if r.Bool() {
+		s := c10Str(r)
+		cid = &s
+	}
+	hdr := c10HeaderBytes(key, ver, int32(r.Intn(1000)), cid)
+	if c10IsFlexible(key, ver) {
+		hdr = append(hdr, 0)
+	}
+	rq := kmsg.RequestForKey(key)
+	rq.SetVersion(ver)
+	body := rq.AppendTo(nil)
+	switch r.Intn(10) {
+	case 0: // valid header, body cut short
+		if len(body) > 0 {
+			body = body[:r.Intn(len(body))]
+		}
+		return c10FrameOf(append(hdr, body...)), "conn-body-truncated"
+	case 1: // valid header, empty body
+		return c10FrameOf(hdr), "conn-body-empty"
+	case 2: // valid header, an array length of 0x7fffffff (or a huge compact length) at the start of the body
+		huge := []byte{0x7f, 0xff, 0xff, 0xff}
+		if c10IsFlexible(key, ver) {
+			huge = []byte{0xff, 0xff, 0xff, 0xff, 0x07}
+		}
+		return c10FrameOf(append(append(hdr, huge...), r.Bytes(r.Intn(8))...)), "conn-body-oversized-count"
+	case 3: // valid header, random body
+		return c10FrameOf(append(hdr, r.Bytes(r.Range(1, 24))...)), "conn-body-random"
+	case 4, 5: // unknown / unsupported API key, every client-id shape, with and without a body
+		k := []int16{9999, 93, 200, -1, -32768, 32767, 88, 89}[r.Intn(8)]
+		h2 := c10HeaderBytes(k, int16(r.Range(0, 12)), int32(r.Intn(1000)), cid)
+		if r.Bool() {
+			h2 = append(h2, body...)
+		}
+		return c10FrameOf(h2), "conn-unknown-key"
+	case 6: // oversized tagged-field size
+		if c10IsFlexible(key, ver) {
+			h := c10HeaderBytes(key, ver, 77, cid)
+			h = append(h, 1, 0)
+			h = append(h, c10OddUvarint(r)...)
+			return c10FrameOf(h), "conn-odd-tag-size"
+		}
+		return c10FrameOf(hdr[:r.Intn(len(hdr))]), "conn-header-truncated"
+	case 7:
+		return c10FrameOf(hdr[:r.Intn(len(hdr))]), "conn-header-truncated"
+	case 8:
+		return good[:r.Intn(len(good))], "conn-truncated"
+	default:
+		return []byte{0xff, 0xff, 0xff, byte(r.Intn(256))}, "conn-negative-frame"
+	}
+}
+
 func c10GenConn(r *vRand) c10Case {
 	c10Init()
 	var s []byte
-	n := r.Range(1, 4)
+	n := r.Range(1, 5)
 	class := "conn"
+	badAt := -1
+	if r.Chance(75) {
+		badAt = r.Intn(n) // anywhere in the stream: the frames after it must stay unread and unhandled
+	}
 	for i := 0; i < n; i++ {
 		key := c10Keys[r.Intn(len(c10Keys))]
 		rq := kmsg.RequestForKey(key)
 		ver := int16(r.Range(0, int(rq.MaxVersion())))
+		if key == 7 && ver == 0 {
+			ver = 1
+		}
 		rq.SetVersion(ver)
-		f := kmsg.NewRequestFormatter(kmsg.FormatterClientID("c"))
-		fr := f.AppendRequest(nil, rq, int32(r.Intn(1000)))
-		if i == n-1 {
-			switch r.Intn(5) {
-			case 0: // last frame carries the oversized tagged-field size
-				if c10IsFlexible(key, ver) {
-					h := c10HeaderBytes(key, ver, 77, nil)
-					h = append(h, 1, 0)
-					h = append(h, c10OddUvarint(r)...)
-					fr = append(make([]byte, 4), h...)
-					binary.BigEndian.PutUint32(fr, uint32(len(h)))
-					class = "conn-odd-tag-size"
-				}
-			case 1:
-				fr = fr[:r.Intn(len(fr))]
-				class = "conn-truncated"
-			case 2:
-				fr = []byte{0xff, 0xff, 0xff, byte(r.Intn(256))}
-				class = "conn-negative-frame"
-			}
+		var opts []kmsg.RequestFormatterOpt
+		if r.Bool() {
+			opts = append(opts, kmsg.FormatterClientID(c10Str(r)))
+		}
+		fr := kmsg.NewRequestFormatter(opts...).AppendRequest(nil, rq, int32(r.Intn(1000)))
+		if i == badAt {
+			fr, class = c10BadFrame(r, key, ver, fr)
 		}
 		s = append(s, fr...)
 	}
@@ -617,24 +742,53 @@ func TestVerifC10(t *testing.T) {
 		js, _ := json.Marshal(cs)
 		jsons = append(jsons, string(js))
 	}
+	connN := 0
 	runConn := func(cs c10Case) {
-		handled, panicked, msg := c10Conn(cs.Bytes)
+		handled, consumed, panicked, msg := c10Conn(cs.Bytes)
 		if panicked {
-			key := "panic:other"
+			key := "panic:connection"
 			if strings.Contains(msg, "slice bounds out of range") {
 				key = "panic:tagged-field-size"
 			}
-			fail(key, "handleConnection panicked (no recover: the broker process dies): "+msg, cs)
+			// shrink: drop whole frames from the front while the panic persists
+			shr := cs
+			for len(shr.Bytes) > 4 {
+				l := int(binary.BigEndian.Uint32(shr.Bytes))
+				if l < 0 || 4+l >= len(shr.Bytes) {
+					break
+				}
+				cand := shr
+				cand.Bytes = shr.Bytes[4+l:]
+				if _, _, p2, _ := c10Conn(cand.Bytes); !p2 {
+					break
+				}
+				shr = cand
+			}
+			fail(key, fmt.Sprintf("handleConnection panicked (no recover: the broker process dies) on stream %x: %s", shr.Bytes, msg), shr)
 		} else if msg != "" {
 			fail("conn:hang", msg, cs)
+		} else {
+			connN++
+			if connN%4 == 0 { // part of the time also through a real broker.Server listener
+				if viaTCP, err := c10Listener(cs.Bytes); err == nil {
+					rep.Hist("conn-via-listener")
+					if fmt.Sprint(viaTCP) != fmt.Sprint(handled) {
+						fail("conn:listener-differs", fmt.Sprintf("requests handled through broker.Server on TCP %v differ from handleConnection over a pipe %v", viaTCP, handled), cs)
+					}
+				}
+			}
 		}
 		rep.Hist(cs.Class)
-		rep.Count("c"+string(cs.Bytes), len(handled) > 1)
+		rep.Count("c"+string(cs.Bytes), len(handled) > 1 || strings.HasPrefix(cs.Class, "conn-"))
 		items := make([]string, len(handled))
 		for i, h := range handled {
 			items[i] = fmt.Sprintf("(%s, %s, %s)", cqZ(h[0]), cqZ(h[1]), cqZ(h[2]))
 		}
-		coq = append(coq, fmt.Sprintf("CConn %s %s %s", cqBytes(cs.Bytes), cqList(items), cqBool(panicked)))
+		var bad []string
+		for _, b := range c10BadBodies(cs.Bytes) {
+			bad = append(bad, fmt.Sprintf("(%s, %s, %s)", cqZ(b[0].(int64)), cqZ(b[1].(int64)), cqBytes(b[2].([]byte))))
+		}
+		coq = append(coq, fmt.Sprintf("CConn %s %s %s %d %s", cqBytes(cs.Bytes), cqList(bad), cqList(items), consumed, cqBool(panicked)))
 		js, _ := json.Marshal(cs)
 		jsons = append(jsons, string(js))
 	}
@@ -693,6 +847,11 @@ func TestVerifC10(t *testing.T) {
 			{Kind: "header", Class: "hdr-tag-size-odd", Bytes: w},
 			{Kind: "header", Class: "hdr-tag-size-odd", Bytes: append(append([]byte{}, w[:12]...), 0x80, 0x80, 0x80, 0x80, 0x80, 0x80, 0x80, 0x80, 0x80, 0x01)}, // 2^63
 			{Kind: "conn", Class: "conn-odd-tag-size", Bytes: fr},
+			// well-formed header + unknown API key / undecodable body, then another request: error path of handleConnection
+			{Kind: "conn", Class: "conn-unknown-key", Bytes: append(c10FrameOf(c10HeaderBytes(9999, 0, 5, nil)), c10FrameOf(c10HeaderBytes(18, 0, 6, nil))...)},
+			{Kind: "conn", Class: "conn-body-truncated", Bytes: append(c10FrameOf(append(c10HeaderBytes(3, 1, 7, nil), 0, 0, 0, 2, 0, 1)), c10FrameOf(c10HeaderBytes(18, 0, 8, nil))...)},
+			{Kind: "conn", Class: "conn-body-oversized-count", Bytes: c10FrameOf(append(c10HeaderBytes(3, 1, 9, nil), 0x7f, 0xff, 0xff, 0xff))},
+			{Kind: "conn", Class: "conn-body-empty", Bytes: c10FrameOf(c10HeaderBytes(0, 7, 10, nil))},
 			{Kind: "frame", Class: "frame-negative", Bytes: []byte{0xff, 0xff, 0xff, 0xff, 1, 2}},
 			{Kind: "frame", Class: "frame-truncated", Bytes: []byte{0x00, 0x10, 0x00, 0x00, 1, 2}},
 		}
@@ -727,7 +886,7 @@ func TestVerifC10(t *testing.T) {
 			switch i % 10 {
 			case 0, 1:
 				run(c10GenFrame(rr))
-			case 2:
+			case 2, 3, 4:
 				run(c10GenConn(rr))
 			default:
 				run(c10GenHeader(rr))
